@@ -385,7 +385,9 @@ func classifyStateDiff(d []string) string {
 		}
 	}
 	if onlyEdges {
-		strip := func(l string) string { return strings.TrimSuffix(strings.TrimSuffix(l[2:], "admin=true"), "admin=false") }
+		strip := func(l string) string {
+			return strings.TrimSuffix(strings.TrimSuffix(l[2:], "admin=true"), "admin=false")
+		}
 		minus, plus := map[string]bool{}, map[string]bool{}
 		for _, l := range d {
 			if l[0] == '-' {
